@@ -381,6 +381,21 @@ def r11_9(run, model):
                    witness="\\\\Name:<space><space> loses its trailing blanks: the string denotes \"Name:\" instead of \"Name:  \"")
     if not found:
         raise AnalysisIncomplete("MultilineStrExpr arm not found")
+    # the same discipline where the token is cut: the scanner removes the line terminator after the last line and nothing else
+    LEX = "crates/lexer/src/lib.rs"
+    g = model.fn("lex_multiline_str", LEX)
+    for h in model.scope_fns(g):
+        if h.body is None:
+            continue
+        for c in S.walk(h.body):
+            if c["k"] != "MethodCall" or not c["method"].startswith("trim") or c["method"].startswith("trim_start"):
+                continue
+            at = S.norm_ws(run.facts.text(LEX, c["args"][0]["sp"])) if c["args"] else ""
+            only_terminator = c["method"] in ("trim_end_matches", "trim_matches") and bool(at) and \
+                set(re.findall(r"'(\\.|[^'\\])'", at)) <= {"\\n", "\\r"} and not re.search(r"is_|char::|\|", at) and bool(re.findall(r"'(\\.|[^'\\])'", at))
+            run.ob("R11.9", f"{h.name}|{c['method']}({at[:20]}) removes the line terminator only", only_terminator, site(LEX, c["sp"]),
+                   f"`{c['method']}({at})` while cutting the multi-line string token",
+                   witness="let prompt = \\\\> <space>; the token is cut with trim_end(): the literal denotes \"> \" without its trailing blank")
 
 
 def r11_12(run, model):
@@ -389,10 +404,10 @@ def r11_12(run, model):
                        "the last `\\n` also looks at a preceding `\\r`, or the lowering removes a trailing `\\r` from each line")
     LEX = "crates/lexer/src/lib.rs"
     f = model.fn("lex_multiline_str", LEX)
-    cuts = [c for c in S.walk(f.body) if c["k"] == "Lit" and S.norm_ws(run.facts.text(LEX, c["sp"])) == "b'\\n'"]
+    cuts = [c for c in S.walk(f.body) if c["k"] == "Lit" and S.norm_ws(run.facts.text(LEX, c["sp"])) in ("b'\\n'", "'\\n'")]
     if not cuts:
         raise AnalysisIncomplete("lex_multiline_str: no comparison with b'\\n' found")
-    cr = [c for c in S.walk(f.body) if c["k"] == "Lit" and S.norm_ws(run.facts.text(LEX, c["sp"])) == "b'\\r'"]
+    cr = [c for c in S.walk(f.body) if c["k"] == "Lit" and S.norm_ws(run.facts.text(LEX, c["sp"])) in ("b'\\r'", "'\\r'", '"\\r\\n"')]
     g = model.fn("lower_expr_with_args", LOWER)
     low = False
     for m in S.find(g.body, "Match"):
